@@ -158,6 +158,8 @@ func (accountsSuite) Run(raw json.RawMessage) []Step {
 		return accountsRunPaths(c)
 	case "accounts":
 		return accountsRunAccounts(c)
+	case "alias":
+		return accountsRunAlias(c)
 	case "e2e":
 		return accountsRunE2E(c)
 	}
@@ -217,6 +219,34 @@ func accountsRunPaths(c accountsCase) []Step {
 	return steps
 }
 
+// accountsRunAlias: the real mutateAccounts on a tree in which etc/group and etc/passwd are one node.  The goroutines
+// race on that node, so no particular outcome is demanded of the model (NoImpl); a call that reports success must
+// have realized the declared accounts (the Lean driver judges the graph the real code left).
+func accountsRunAlias(c accountsCase) []Step {
+	w := accountsWorld(c.Setup)
+	pre := w.dump()
+	ic := accountsIC(c)
+	err := build.VerifMutateAccounts(w.tfs, &ic)
+	res := "err"
+	if err == nil {
+		res = "ok:" + hx(ic.Accounts.RunAs)
+	}
+	post := w.dump()
+	tag := "alias:err"
+	if err == nil {
+		tag = "alias:ok"
+	}
+	return []Step{{
+		Line:    "acc.alias\t" + pre + "\t" + res + "\t" + post + "\t" + strings.Join(accountsTokens(c), "\t"),
+		Go:      "-",
+		Desc:    fmt.Sprintf("etc/group and etc/passwd are one node (setup %v); %d users, %d groups => %s", c.Setup[len(c.Setup)-1], len(c.Users), len(c.Groups), res),
+		Tags:    []string{"kind:alias", tag},
+		Mode:    "verdict",
+		NoImpl:  true,
+		Trivial: err != nil,
+	}}
+}
+
 func accountsRunAccounts(c accountsCase) []Step {
 	w := accountsWorld(c.Setup)
 	pre := w.dump()
@@ -228,6 +258,9 @@ func accountsRunAccounts(c accountsCase) []Step {
 	}
 	post := w.dump()
 	tags := map[string]struct{}{"kind:accounts": {}, fmt.Sprintf("users:%d", len(c.Users)): {}, fmt.Sprintf("groups:%d", len(c.Groups)): {}}
+	if len(c.Users) >= 8 {
+		tags["accounts:large-list"] = struct{}{}
+	}
 	if err != nil {
 		cls := "other"
 		for _, kv := range [][2]string{{"unable to parse", "parse"}, {"is not a directory", "home-notdir"}, {"failed to open", "open"}, {"creating homedir", "mkdir"}, {"chowning homedir", "chown"}, {"creating parent", "parent"}, {"checking homedir", "stat"}} {
